@@ -29,6 +29,10 @@ CHECKS = {
           "Every row is executed at the FeelNumber API level and as a FEEL expression; the oracle recomputes each one (exactly; exp, log and inexact powers within 2 ulp; modulo by exact rational arithmetic) and requires null exactly where the result is undefined or out of range, and never an infinite or NaN value.",
           "Trusts libmpdec (CPython decimal) as decimal128. Underflow to subnormal/zero and non-integer scales are left unspecified and not compared. Operands off the lattice are not covered.",
           "DESIGN.md §4 C02"),
+  "C05": ("crash-isolated bounded exhaustive enumeration in two build profiles (release; release with overflow checks and debug assertions): all token strings up to length 3 (quick) / 4 (thorough) over a 45-token alphabet x 7 parser entry points x 2 parsing scopes; every single-character edit of every expression harvested from the repository's tests; nesting towers to depth 200 of 21 constructs; every built-in x every argument tuple over a 30-value extreme alphabet; iteration forms with boundary ranges",
+          "Each case is parsed (and evaluated when it parses) in a worker process that announces the case index in a memory-mapped file before running it under catch_unwind; a worker that panics, dies by a signal or abort, or makes no progress within the stall limit is attributed to that case and restarted behind it. The verdict is: no case of the enumerated space crashes or hangs, in either profile.",
+          "Values are not judged. Multi-edit corruptions and token strings beyond the length bound are outside the bound; the stall limit is 8 s (quick) / 30 s (thorough); worker address space is limited to 4 GiB.",
+          "DESIGN.md §4 C05"),
   "C06": ("bounded exhaustive enumeration of syntax trees (every constructor in every slot of every constructor, depth-3 spines) x parenthesisations x layouts, and of every string escape of every code point, against a precedence-table unparser",
           "Every tree of the bounded space is rendered fully parenthesised, minimally parenthesised and with each needed pair removed, in six token-preserving layouts, and parsed by the real parser; the parsed tree is compared with the generating tree. All 1 114 112 code points in every escape spelling and all 1 048 576 surrogate pairs are lexed. A coverage statement within the depth bound, not a sample.",
           "Trusts the transcribed precedence table in harness/vh/src/term.rs (validated by this run itself: a wrong table shows up as a mismatch) and AstNode's derived PartialEq. Trees deeper than 3 are outside the bound.",
